@@ -62,6 +62,8 @@ def check(run):
         lens_iters(run, F)
         wrappers(run, F, cfg)
         nobranch(run, F)
+        nw = B.check_writes(run, F, head_of)
+        run.floor('API.write', 'buffer write accessors (config %s)' % cfg, nw, {'base': 3, 'nd': 10, 'full': 10}.get(cfg, 3))
         if cfg == 'base':
             tl.check_write_trust_iter(run, F)
     return run.finish(
